@@ -52,7 +52,7 @@ func srcName(v ssa.Value) string {
 
 // C14: metadata precedence and opt-out (combinator skeleton).
 func C14(p *core.Program, r *core.Report) {
-	r.Explanation = "P1: in markup.NewParser the accessor list is built in the order OpenGraph (only under err==nil && parser!=nil), schema.org, IE reading view (reachability/guard-cut on the appends). P2: opengraph.NewParser's decision list rejects (nil parser, error) when title, type, url or the image list is empty and accepts otherwise. P3: each of the ten getters of markup.Parser is a forward range over the accessor list returning the first non-empty answer of the same-named Accessor method (decision-list conformance per getter). P4: MarkupInfo returns the zero record whenever OptOut() holds; a filled record is reachable only through the OptOut()==false edge. P5: every field of the record is filled from the same-named getter/field. P6: the opt-out tag is searched among all meta elements of the whole root (name IE_RM_OFF, content true, case-insensitively) and all three parsers get that same root."
+	r.Explanation = "P1: in markup.NewParser the accessor list is built in the order OpenGraph (only under err==nil && parser!=nil), schema.org, IE reading view (reachability/guard-cut on the appends). P2: opengraph.NewParser's decision list rejects (nil parser, error) when title, type, url or the image list is empty and accepts otherwise. P3: each of the ten getters of markup.Parser is a forward range over the accessor list returning the first non-empty answer of the same-named Accessor method (decision-list conformance per getter). P4: MarkupInfo returns the zero record whenever OptOut() holds; a filled record is reachable only through the OptOut()==false edge. P5: every field of the record is filled from the same-named getter/field. P6: the opt-out tag is searched among all meta elements of the whole root (name IE_RM_OFF, content true, case-insensitively) and all three parsers get that same root. P7: Apply stores Result.MarkupInfo once, as the whole record returned by the markup parser, and writes no field of it afterwards."
 	r.NotCovered = "the three parsers' internals (nested microdata, type dependent OpenGraph properties, IE meta tags), i.e. what each source reports; only the combination of the sources is decided."
 
 	// ---- P1
@@ -313,6 +313,30 @@ func C14(p *core.Program, r *core.Report) {
 		// article taken wholesale from a single Article() call
 		nArt := len(core.Calls(mi, func(c ssa.CallInstruction) bool { return core.IsCallTo(c, "(*"+markupPkg+".Parser).Article") }))
 		r.Add("P5", "MarkupInfo: article sub-record from one Article() answer", p.Pos(mi.Pos()), nArt == 1, fmt.Sprintf("%d calls", nArt))
+	}
+	// P7: the result carries the parser's record as it is: Apply stores Result.MarkupInfo as a
+	// whole, from the markup parser's MarkupInfo(), and never patches a field of it afterwards
+	// (a field filled from anything else - the page URL, the title heuristic - would be metadata
+	// the page does not declare)
+	if ap := mustInl(p, r, "P7", core.ModPath+".Apply"); ap != nil {
+		c := core.NewCanon(p)
+		nWhole, bad := 0, ""
+		for _, in := range instrsOf(ap) {
+			st, ok := in.(*ssa.Store)
+			if !ok {
+				continue
+			}
+			a := c.Of(st.Addr)
+			if !strings.HasPrefix(a, "&new(distiller.Result).MarkupInfo") {
+				continue
+			}
+			if a == "&new(distiller.Result).MarkupInfo" && strings.HasPrefix(c.Of(st.Val), "markup.Parser.MarkupInfo(") {
+				nWhole++
+				continue
+			}
+			bad = a + " = " + c.Of(st.Val) + " at " + p.Pos(st.Pos())
+		}
+		r.Add("P7", "Result.MarkupInfo is the parser's record, stored once and not patched", p.Pos(ap.Pos()), nWhole == 1 && bad == "", fmt.Sprintf("%d whole-record stores; other store: %s", nWhole, bad))
 	}
 }
 
